@@ -131,7 +131,7 @@ func extractSpec(s *rspec.Spec, cdi []string) *CState {
 		}
 		c.Args = append([]string(nil), s.Process.Args...)
 		for _, l := range s.Process.Rlimits {
-			c.Rlimits = append(c.Rlimits, l.Type+"="+strconv.FormatUint(l.Hard, 10))
+			c.Rlimits = append(c.Rlimits, l.Type+"="+rlimitDesc(l.Hard, l.Soft))
 		}
 		if s.Process.OOMScoreAdj != nil {
 			c.Oom = strconv.Itoa(*s.Process.OOMScoreAdj)
@@ -141,12 +141,12 @@ func extractSpec(s *rspec.Spec, cdi []string) *CState {
 		if _, dup := c.Mounts[m.Destination]; dup {
 			c.Anomal = append(c.Anomal, fmt.Sprintf("mount destination %q listed more than once", m.Destination))
 		}
-		c.Mounts[m.Destination] = m.Source
+		c.Mounts[m.Destination] = mountDesc(m.Source, m.Type, m.Options)
 	}
 	if h := s.Hooks; h != nil {
 		add := func(k string, hs []rspec.Hook) {
 			for _, x := range hs {
-				c.Hooks[k] = append(c.Hooks[k], x.Path)
+				c.Hooks[k] = append(c.Hooks[k], hookDesc(x.Path, x.Args, x.Env, x.Timeout))
 			}
 		}
 		add("prestart", h.Prestart)
